@@ -19,6 +19,15 @@ pub struct Dispatcher<'a, 'b> {
 }
 
 impl<'a> Dispatcher<'a, '_> {
+    /// Verification hook: the plan that is really executed.
+    #[cfg(feature = "verif-hooks")]
+    pub fn verif_layout(&self) -> crate::dispatch::VerifLayout {
+        crate::dispatch::VerifLayout {
+            stages: self.inner.verif_layout().stages,
+            thread_local: verif_thread_local(&self.thread_local),
+        }
+    }
+
     /// Sets up all the systems which means they are gonna add default values
     /// for the resources they need.
     pub fn setup(&mut self, world: &mut World) {
@@ -131,6 +140,30 @@ impl RunNow<'_> for Dispatcher<'_, '_> {
     fn dispose(self: Box<Self>, world: &mut World) {
         (*self).dispose(world);
     }
+}
+
+/// Verification hook: plan of a builder or dispatcher; every system is given
+/// as `(address, size)` of the boxed value.
+#[cfg(feature = "verif-hooks")]
+#[derive(Clone, Debug, Default, Eq, PartialEq)]
+pub struct VerifLayout {
+    /// stage -> group -> position
+    pub stages: Vec<Vec<Vec<(usize, usize)>>>,
+    /// thread-local systems in execution order
+    pub thread_local: Vec<(usize, usize)>,
+}
+
+#[cfg(feature = "verif-hooks")]
+pub(crate) fn verif_thread_local(tl: &ThreadLocal<'_>) -> Vec<(usize, usize)> {
+    tl.iter()
+        .map(|s| {
+            let r: &dyn for<'x> RunNow<'x> = &**s;
+            (
+                r as *const _ as *const () as usize,
+                std::mem::size_of_val(r),
+            )
+        })
+        .collect()
 }
 
 #[derive(Clone, Copy, Debug, Eq, Hash, Ord, PartialEq, PartialOrd)]
